@@ -310,7 +310,8 @@ def _cmp_restored(z, x, perm, fermionic, what):
     for s in x.blocks:
         if s not in w.blocks:
             fails.append(("C05.unfuse_restores", f"{what}: original block {s!r} is missing"))
-        elif np.asarray(w.blocks[s]).dtype != np.asarray(x.blocks[s]).dtype:
+        elif np.asarray(w.blocks[s]).dtype != np.result_type(*[np.asarray(b).dtype for b in x.blocks.values()]):
+            # the element type of the block itself, or -- for an array mixing element types -- their common type
             fails.append(("C05.unfuse_restores", f"{what}: dtype of block {s!r} changed"))
     try:
         audit_valid(z)
@@ -400,7 +401,10 @@ def check_case(d):
             ok, why = arrays_equal(y_ins, y_m, exact=True, check_subinfo=True, why=True)
             if not ok:
                 add("C05.strategies_equal", f"insert vs {mode}: {why}", mode=mode)
-            else:
+            elif not d["a"].get("mixed_block_dtypes"):
+                # (an array mixing real and complex blocks may come back with every fused block in the common
+                # type from one strategy and only the fused blocks that contain complex data from the other: both
+                # hold the same values; no property prescribes which)
                 for k, b in y_ins.blocks.items():
                     bm = y_m.blocks.get(k)
                     if bm is not None and np.asarray(bm).dtype != np.asarray(b).dtype:
